@@ -102,9 +102,12 @@ def cfg_for(seed, configs=CONFIGS):
 
 
 def run_hist(acc, hist, cfg, seed, case, nontrivial_keys=(), quiesce=True, timer=True, keep_sample=False,
-             post=None, pre=None, stop_on_violation=True):
+             post=None, pre=None, stop_on_violation=True, legacy=None):
     """Execute one symbolic history under the tracker and absorb what was observed."""
-    ex = Exec(cfg, seed=seed, timer=timer)
+    if legacy is None:
+        # every fourth random history starts on database files created from the schema snapshots in mon/legacy/
+        legacy = isinstance(case, str) and not case.startswith("c") and seed % 4 == 3
+    ex = Exec(cfg, seed=seed, timer=timer, legacy=legacy)
     try:
         if pre is not None:
             pre(ex)
@@ -115,7 +118,9 @@ def run_hist(acc, hist, cfg, seed, case, nontrivial_keys=(), quiesce=True, timer
         if post is not None:
             post(ex)
         base = {"property": acc.prop, "kind": "history", "cfg": cfg.to_json(), "seed": seed,
-                "history": hist, "case": case, "timer": timer, "quiesce": quiesce}
+                "history": hist, "case": case, "timer": timer, "quiesce": quiesce, "legacy": legacy}
+        if legacy:
+            acc.extra["histories_on_legacy_schema_files"] += 1
         acc.cases += 1
         acc.absorb_tracker(ex.tracker, ex.world, hhash(hist), base, nontrivial_keys)
         if keep_sample and len(acc.samples) < 3:
@@ -130,5 +135,5 @@ def replay_history(rep, prop):
     cfg = Config.from_json(rep["cfg"])
     acc = Acc(prop)
     run_hist(acc, rep["history"], cfg, rep["seed"], rep.get("case", "replay"),
-             quiesce=rep.get("quiesce", True), timer=rep.get("timer", True))
+             quiesce=rep.get("quiesce", True), timer=rep.get("timer", True), legacy=rep.get("legacy", False))
     return acc
